@@ -98,6 +98,26 @@ class Probes:
     def tick(self, d):
         self.clock.time += d
 
+    # -- one text in two roles: the very same source string is the guard of transition `ta` and the action of
+    #    transition `tb` (dg), or the precondition `idx` of `owner` and the entry code of state `s` (dc).  Which role
+    #    is being played is read off the calling code object: an expression compiled for eval() has no POP_TOP.
+    @staticmethod
+    def _as_statement(depth=2):
+        import dis
+        import sys
+        code = sys._getframe(depth).f_code
+        return any(i.opname == 'POP_TOP' for i in dis.get_instructions(code))
+
+    def dg(self, ta, tb, x, time, event=None):
+        if self._as_statement():
+            return self.p('a', tb, x, time, event)
+        return self.g(ta, event, time)
+
+    def dc(self, owner, idx, s, x, time):
+        if self._as_statement():
+            return self.p('e', s, x, time)
+        return self.c(1, owner, idx, time)
+
 
 class Listener:
     """A listener attached with Interpreter.attach: logs every documented meta-event."""
